@@ -13,6 +13,7 @@ import (
 	"io"
 	"net/http"
 	"net/http/httptest"
+	"strings"
 
 	goahttp "goa.design/goa/v3/http"
 	goa "goa.design/goa/v3/pkg"
@@ -29,18 +30,42 @@ type reqCase struct {
 }
 
 // requestExpectation: what the statement obliges the request decoder to do for a Content-Type.
+// The media type named before the first ';' decides (RFC 7231 3.1.1.1: type "/" subtype,
+// case-insensitive; parameters never change the type):
 //
-//	must     formats of which the body MUST be decoded as (absent -> json; a well-formed media
-//	         type naming a supported type, case-insensitively, parameters ignored -> that type)
-//	allowed  when must is empty: the formats the body may be decoded as; any other answer must
-//	         be a 415 (suffixed vendor types: the suffix format or 415; malformed values: JSON
-//	         fallback, the type named before the broken parameters, or 415)
-//	class    abstract class for signatures
+//	must     the format the body MUST be decoded as (absent header -> json; a well-formed
+//	         header naming a supported type -> that type); a 415 here is a violation
+//	allowed  when must is empty and the class is not "unsupported*": the only format the body may
+//	         be decoded as, the alternative being a 415 - never another format. This covers a
+//	         supported name followed by broken parameters ("application/json; charset"), suffixed
+//	         vendor types (the statement does not say whether +json is "supported") and a
+//	         whitespace-only header (as good as absent: json or 415)
+//	class    "unsupported" (well-formed) / "unsupported-malformed" (broken syntax): the name
+//	         before the first ';' is none of the supported types (including no name at all,
+//	         "application/", "application/x/yaml", comma lists): MUST be answered with 415 and
+//	         never decoded, whatever else is wrong with the header
 func requestExpectation(ct string, set bool) (must string, allowed []string, class string) {
 	if !set || ct == "" {
 		return fJSON, nil, "absent"
 	}
+	if strings.Trim(ct, " \t") == "" {
+		return "", []string{fJSON}, "blank"
+	}
 	m := refMediaType(ct)
+	name := strings.ToLower(strings.Trim(strings.SplitN(ct, ";", 2)[0], " \t"))
+	bySuffix := func(tag string) (string, []string, string, bool) {
+		switch suffixOf(name) {
+		case "json":
+			return "", []string{fJSON}, "suffix+json" + tag, true
+		case "xml":
+			return "", []string{fXML}, "suffix+xml" + tag, true
+		case "gob":
+			return "", []string{fGob}, "suffix+gob" + tag, true
+		case "html", "txt":
+			return "", []string{fText}, "suffix+text" + tag, true
+		}
+		return "", nil, "", false
+	}
 	if m.WellFormed {
 		if f, ok := exactFormat[m.Name]; ok {
 			switch {
@@ -51,56 +76,19 @@ func requestExpectation(ct string, set bool) (must string, allowed []string, cla
 			}
 			return f, nil, "exact-case/space-variant"
 		}
-		switch suffixOf(m.Name) {
-		case "json":
-			return "", []string{fJSON}, "suffix+json"
-		case "xml":
-			return "", []string{fXML}, "suffix+xml"
-		case "gob":
-			return "", []string{fGob}, "suffix+gob"
-		case "html", "txt":
-			return "", []string{fText}, "suffix+text"
+		if mu, al, cl, ok := bySuffix(""); ok {
+			return mu, al, cl
 		}
 		return "", nil, "unsupported"
 	}
-	allowed = []string{fJSON}
-	if m.Name != "" {
-		if f, ok := exactFormat[m.Name]; ok && f != fJSON {
-			allowed = append(allowed, f)
-		}
-	} else {
-		// not even type/subtype before the first ';': look at the raw prefix
-		for _, name := range supported {
-			if f := exactFormat[name]; equalFoldPrefix(ct, name) && f != fJSON {
-				allowed = append(allowed, f)
-			}
-		}
+	// broken syntax somewhere: the name before the first ';' still decides
+	if f, ok := exactFormat[name]; ok {
+		return "", []string{f}, "supported+malformed-params"
 	}
-	return "", allowed, "malformed"
-}
-
-func equalFoldPrefix(s, prefix string) bool {
-	s = trimLeftSpace(s)
-	if len(s) < len(prefix) {
-		return false
+	if mu, al, cl, ok := bySuffix("+malformed-params"); ok {
+		return mu, al, cl
 	}
-	for i := 0; i < len(prefix); i++ {
-		a, b := s[i], prefix[i]
-		if 'A' <= a && a <= 'Z' {
-			a += 'a' - 'A'
-		}
-		if a != b {
-			return false
-		}
-	}
-	return true
-}
-
-func trimLeftSpace(s string) string {
-	for len(s) > 0 && (s[0] == ' ' || s[0] == '\t') {
-		s = s[1:]
-	}
-	return s
+	return "", nil, "unsupported-malformed"
 }
 
 type reqObs struct {
@@ -205,27 +193,27 @@ func judgeRequest(rc reqCase, v *valueSpec, obs reqObs) (outcome string, fails [
 			add(fmt.Sprintf("request ct=%s(%s) observed=415", class, must), "a supported media type was answered with 415")
 			return "VIOLATION", fails
 		case rerr != nil && obs.Err == nil:
-			add(fmt.Sprintf("request ct=%s(%s) body=%s target=%s reference=error observed=decoded", class, must, bodyClass(rc), v.Kind),
+			add(fmt.Sprintf("request ct=%s(%s) body=%s reference=error observed=decoded", class, must, bodyClass(rc)),
 				fmt.Sprintf("the body is not %s (reference: %v) but was decoded to %s", must, rerr, short(obs.Decoded)))
 			return "VIOLATION", fails
 		case rerr == nil && obs.Err != nil:
-			add(fmt.Sprintf("request ct=%s(%s) body=%s target=%s reference=decoded observed=%s", class, must, bodyClass(rc), v.Kind, observed),
+			add(fmt.Sprintf("request ct=%s(%s) body=%s reference=decoded observed=%s", class, must, bodyClass(rc), observed),
 				fmt.Sprintf("the body is valid %s for the target but decoding failed: %v", must, obs.Err))
 			return "VIOLATION", fails
 		case rerr == nil && obs.Decoded != want:
-			add(fmt.Sprintf("request ct=%s(%s) body=%s target=%s different-value", class, must, bodyClass(rc), v.Kind),
+			add(fmt.Sprintf("request ct=%s(%s) body=%s different-value", class, must, bodyClass(rc)),
 				fmt.Sprintf("decoded %s, the %s reading of the body is %s", short(obs.Decoded), must, short(want)))
 			return "VIOLATION", fails
 		}
 		return fmt.Sprintf("ct=%s(%s) body=%s -> %s", class, must, bodyClass(rc), observed), fails
-	case class == "unsupported":
+	case strings.HasPrefix(class, "unsupported"):
 		if !is415 {
-			add(fmt.Sprintf("request ct=unsupported body=%s target=%s observed=%s", bodyClass(rc), v.Kind, observed),
-				"an unsupported media type must be answered with 415, not decoded as something else")
+			add(fmt.Sprintf("request ct=%s observed=%s must-be-415", class, observed),
+				"the media type named before the first ';' is not supported: the request must be answered with 415, not decoded as something else")
 			return "VIOLATION", fails
 		}
-		return "ct=unsupported -> 415", fails
-	default: // suffix / malformed: 415, or decoded exactly as one of the allowed formats says
+		return "ct=" + class + " -> 415", fails
+	default: // supported name with broken parameters / suffixed type / blank: 415, or decoded exactly as the one allowed format says
 		if is415 {
 			return fmt.Sprintf("ct=%s -> 415", class), fails
 		}
@@ -238,7 +226,7 @@ func judgeRequest(rc reqCase, v *valueSpec, obs reqObs) (outcome string, fails [
 				return fmt.Sprintf("ct=%s body=%s -> decoded as %s", class, bodyClass(rc), f), fails
 			}
 		}
-		add(fmt.Sprintf("request ct=%s body=%s target=%s observed=%s not-415-nor-announced-format", class, bodyClass(rc), v.Kind, observed),
+		add(fmt.Sprintf("request ct=%s observed=%s not-415-nor-announced-format", class, observed),
 			fmt.Sprintf("neither a 415 nor a decoding according to %v (decoded %s, err %v)", allowed, short(obs.Decoded), obs.Err))
 		return "VIOLATION", fails
 	}
